@@ -119,6 +119,9 @@ func (h *killedHandler) cleanupScheduler() {
 	}
 	// 清理调度器，重启也清理
 	h.ctx.scheduler.Clear()
+	// doKill 在 OnKill / OnKilled 处理函数运行之前已清理过一次等待自身的 Future；这些处理函数中发起的 Ask
+	// 是在那次清理之后登记的，若不带超时且无人应答将永远不会完成：在本实例最后一个处理函数结束后再清理一次
+	h.ctx.system.removeFuturesByAgentPath(h.ctx.ref.GetPath(), vivid.ErrorActorDeaded)
 	h.ctx.Logger().Debug("actor killed",
 		log.String("path", h.ctx.ref.GetPath()),
 		log.Bool("restarting", h.restarting))
